@@ -43,6 +43,8 @@ class QM:
         self.links = []             # plain facts (skolem witnesses of negated universals ...)
         self.name_terms = []        # names at which set-membership choice functions are instantiated
         self.name_facts = []        # fn(name term) -> formula
+        self.big_apps = []          # (kind, F, body_fn, n) applications of big operators
+        self.ext_done = {}
 
     def add_index(self, t, length):
         if all(t.get_id() != u.get_id() for u, _l in self.index_terms):
@@ -52,7 +54,24 @@ class QM:
         if all(n.get_id() != u.get_id() for u in self.name_terms):
             self.name_terms.append(n)
 
+    def extensionality(self):
+        """Pointwise equal element functions give equal big operators: for two applications
+        F(n), G(n) of the same kind and length,  F(n) = G(n)  or  f(w) != g(w) for a skolem w < n."""
+        for i in range(len(self.big_apps)):
+            for j in range(i + 1, len(self.big_apps)):
+                (k1, F, f, n1), (k2, G, g, n2) = self.big_apps[i], self.big_apps[j]
+                if k1 != k2 or F.name() == G.name():
+                    continue
+                key = (F.name(), G.name(), z3.simplify(n1).get_id(), z3.simplify(n2).get_id())
+                if key in self.ext_done:
+                    continue
+                w = z3.Int(f"w!ext[{F.name()},{G.name()}#{len(self.ext_done)}]")
+                self.ext_done[key] = w
+                self.add_index(w, n1)
+                self.links.append(z3.Or(n1 != n2, F(n1) == G(n2), z3.And(w >= 0, w < n1, f(w) != g(w))))
+
     def facts(self, rounds=3):
+        self.extensionality()
         out = list(self.links)
         seen = 0
         for _ in range(rounds):
@@ -62,7 +81,7 @@ class QM:
             idx = list(self.index_terms)
             for (t, _len) in idx:
                 for (length, fn) in self.foralls:
-                    out.append(z3.Implies(z3.And(t >= 0, t < length), fn(t)))
+                    out.append(z3.Implies(z3.And(t >= 0, t < length) if length is not None else (t >= 0), fn(t)))
             if len(self.index_terms) == len(idx) and seen == len(out):
                 break
             seen = len(out)
@@ -141,7 +160,9 @@ def bigsum(I, body_fn, n):
     if key not in I.ghost.setdefault("big_registered", set()):
         I.ghost["big_registered"].add(key)
         q.links.append(f(z3.IntVal(0)) == 0)
-        q.foralls.append((z3.IntVal(10 ** 9), lambda t: f(t + 1) == f(t) + body_fn(t)))
+        q.foralls.append((None, lambda t: f(t + 1) == f(t) + body_fn(t)))
+    if all(not (a[1].name() == f.name() and z3.simplify(a[3]).get_id() == z3.simplify(n).get_id()) for a in q.big_apps):
+        q.big_apps.append(("bigsum", f, body_fn, n))
     return f(n)
 
 
@@ -152,9 +173,22 @@ def bigprod(I, body_fn, n):
     if key not in I.ghost.setdefault("big_registered", set()):
         I.ghost["big_registered"].add(key)
         q.links.append(f(z3.IntVal(0)) == 1)
-        q.foralls.append((z3.IntVal(10 ** 9), lambda t: f(t + 1) == f(t) * body_fn(t)))
+        q.foralls.append((None, lambda t: f(t + 1) == f(t) * body_fn(t)))
         I.ghost.setdefault("bigprod_bodies", {})[f.name()] = (f, body_fn)
+    if all(not (a[1].name() == f.name() and z3.simplify(a[3]).get_id() == z3.simplify(n).get_id()) for a in q.big_apps):
+        q.big_apps.append(("bigprod", f, body_fn, n))
     return f(n)
+
+
+def register_zero_lemma(I, body_fn, n):
+    """prod_{i<n} body(i) = 0 as soon as one factor with index < n is 0 (induction on n; a
+    trusted real-arithmetic fact, instantiated at the index terms in play)."""
+    f = _big("bigprod", body_fn, sym.R)
+    key = ("zero", f.name(), z3.simplify(n).sexpr())
+    if key in I.ghost.setdefault("big_registered", set()):
+        return
+    I.ghost["big_registered"].add(key)
+    qm(I).foralls.append((n, lambda t: z3.Implies(body_fn(t) == 0, f(n) == 0)))
 
 
 def forall_const(I, length, body_fn, tag):
@@ -214,3 +248,13 @@ def bigprod_without(I, body_fn, i, n):
         _BIG[key] = (f, body)
     f = _BIG[key][0]
     return f(i, n)
+
+
+def bighash(I, body_fn, n):
+    """hash of a sequence as a function of its element hashes (uninterpreted; pointwise equal
+    sequences of equal length hash equally - extensionality link)."""
+    f = _big("bighash", body_fn, sym.I)
+    q = qm(I)
+    if all(not (a[1].name() == f.name() and z3.simplify(a[3]).get_id() == z3.simplify(n).get_id()) for a in q.big_apps):
+        q.big_apps.append(("bighash", f, body_fn, n))
+    return f(n)
